@@ -383,6 +383,36 @@ def monitor(ctx, extended=False):
                                       {'history': log, 'use_sf': True, 'use_sqrtcx': True}, key='history-dependence')
                         break
                     events.add((fn, 'after-failed-call' if live[0] == 'exc' else 'ok-in-failing-script'))
+        # the caller's own grading dict, used as is, edited in place between two calls (a diameter changed, a point added): each call answers for the dict as it is THEN
+        F.use_sf, F.use_sqrtcx = True, True
+        for b in pools(ctx.rng)[:3]:
+            g = {0.15: b['d'] / 2.0, 0.5: b['d'], 0.85: b['d'] * 2.72}
+            log = []
+            for edit in (None, 'scale', 'add', 'remove'):
+                if edit == 'scale':
+                    for kk in list(g):
+                        g[kk] = g[kk] * 1.2
+                elif edit == 'add':
+                    g[0.3] = (g[0.15] * g[0.5]) ** 0.5 * 1.1
+                elif edit == 'remove':
+                    del g[0.3]
+                if edit:
+                    log.append(f'the caller edits its own GSD dict in place ({edit})')
+                for cvt_ in (False, True):
+                    args = [g, b['vls'], b['Dp'], b['epsilon'], b['nu'], b['rhol'], b['rhos'], b['Cv']]
+                    kwargs = {'Cvt_eq_Cvs': cvt_, 'num_fracs': None}
+                    ctx.count('evaluations')
+                    log.append(f'framework.Erhg_graded{tuple([dict(g)] + args[1:])} {kwargs}')
+                    try:
+                        live = ('ok', F.Erhg_graded(*args, **kwargs))
+                    except Exception as e:   # noqa
+                        live = ('exc', type(e).__name__)
+                    want = fresh.call('framework.Erhg_graded', [dict(g)] + args[1:], kwargs, True, True)
+                    if live[0] != want[0] or (live[0] == 'ok' and not same(live[1], want[1])) or (live[0] == 'exc' and live[1] != want[1]):
+                        ctx.violation(f'Erhg_graded on the caller\'s own dict returned {str(live)[:160]} after this history; the same call in a fresh interpreter state returns {str(want)[:160]}',
+                                      {'history': list(log), 'use_sf': True, 'use_sqrtcx': True}, key='history-dependence')
+                        break
+                    events.add(('framework.Erhg_graded', 'own-dict', edit))
         # the graded-sand function fails inside its loop over the fractions (line speed 0, a concentration above the bed concentration); afterwards the switches are
         # what the caller set and a coarse-grain call (the only place the sliding-flow switch matters) answers as in a fresh interpreter
         coarse = [(1.5, 0.1524, 6.0e-3, 4.5e-5, 1.0e-6, 1.0, 2.65, 0.12), (3.0, 0.3, 8.0e-3, 4.5e-5, 1.3e-6, 1.0248103, 2.65, 0.2)]
